@@ -258,6 +258,8 @@ def _call(it, e, env):
             m = P.lookup_method(ci, fexpr.attr) if ci else None
             if m is not None:
                 return it.call_repo(m, argv, kw, e, self_val=base)
+            if fexpr.attr in ("compute", "persist"):
+                return base  # the object is (the result of) a Delayed: computing it gives the object
             return unk(f"method {base.obj}.{fexpr.attr}")
     # ---- builtins -----------------------------------------------------------------------------------
     if isinstance(fexpr, ast.Name) and fexpr.id not in env:
@@ -530,6 +532,8 @@ def numpy_call(it, fn, d, e, env, argv, kw, args):
                 return el.copy(sh=(ax_,) + tuple(el.sh) if el.sh is not None else None, cval=None, count_of=None, index_of=None)
             return unk("array of " + fmt(el))
         return a0
+    if fn == "column_stack" and a0 is not None and a0.k == "list" and a0.elem is not None and a0.elem.is_numlike and a0.elem.sh is not None and len(a0.elem.sh) == 1:
+        return a0.elem.copy(sh=(a0.elem.sh[0], a0.axis if a0.axis not in (None, "empty") else "?"), cval=None)
     if fn in ("vstack", "stack", "concatenate", "hstack"):
         if a0 is not None and a0.k == "list" and a0.elem is not None and a0.elem.is_numlike:
             el = a0.elem
@@ -540,6 +544,19 @@ def numpy_call(it, fn, d, e, env, argv, kw, args):
                 return el  # stacking along an existing first axis
             if fn == "vstack" and el.sh is not None and len(el.sh) == 0:
                 return el.copy(sh=(ax, "1"))
+            if fn == "stack" and el.sh is not None and ("axis" in kw or len(argv) > 1):
+                axv_ = kw.get("axis", argv[1] if len(argv) > 1 else None)
+                j_ = _axes_from(axv_) if axv_ is not None else 0
+                if isinstance(j_, int):
+                    n_ = len(el.sh) + 1
+                    j_ = j_ if j_ >= 0 else n_ + j_
+                    if 0 <= j_ < n_:
+                        sh_ = list(el.sh)
+                        sh_.insert(j_, ax)
+                        return el.copy(sh=tuple(sh_), cval=None)
+                return el.copy(sh=None, cval=None)
+            if fn == "hstack" and el.sh is not None and len(el.sh) >= 2:
+                return el.copy(sh=None, cval=None)
             return el.copy(sh=(ax,) + tuple(el.sh) if el.sh is not None else None, cval=None)
         return unk(fn + " of " + (fmt(a0) if a0 else "?"))
     if fn in ("zeros", "ones", "empty", "full", "eye", "identity", "zeros_like", "ones_like", "full_like", "empty_like"):
